@@ -30,6 +30,8 @@ class NamesDriver:
         m = self.m
         return {"uname": dict(m.Unit._by_name), "usym": dict(m.Unit._by_symbol), "pname": dict(m.Prefix._by_name),
                 "psym": dict(m.Prefix._by_symbol), "nknown": len(m.Unit._known), "npref": len(m.Prefix._known),
+                "dname": dict(m.Dimension._by_name), "ndim": len(m.Dimension._known), "nfund": len(m.Dimension._fundamental),
+                "dobjs": {id(d): (d.name, d.symbol) for d in m.Dimension._known.values()},
                 "objs": {id(u): (u.names, u.symbols) for u in m.Unit._known.values()},
                 "pobjs": {id(p): (p.name, p.symbol) for p in m.Prefix._known.values()}}
 
@@ -48,6 +50,8 @@ class NamesDriver:
             if op == "anon":
                 if c == "unit":
                     ctx["obj"][k] = ctx["obj"]["u1"] ** 2
+                elif c == "dimension":
+                    ctx["obj"][k] = m.Length ** 5 / m.Time ** 7       # nobody named this one
                 else:
                     ctx["obj"][k] = m.Prefix(10, self.pexp[k])
             elif op == "define":
@@ -58,6 +62,10 @@ class NamesDriver:
                 ctx["obj"][k].alias(name=n, symbol=s)
             elif op == "named":
                 ctx["obj"][k] = m.Prefix(10, self.pexp[k], name=n, symbol=s)
+            elif op == "dim-define":
+                ctx["obj"][k] = m.Dimension.define(n, "VD" + k)
+            elif op == "dim-derive":
+                m.Dimension.derive(ctx["obj"][k], n, "VX" + k)
             else:
                 raise MachineryError(op)
         except MachineryError:
@@ -84,20 +92,22 @@ class NamesDriver:
                 mm.append(self._mm("%s:rejected-valid:%s" % (tag, type(exc).__name__), "%s(%s, name=%r, symbol=%r) raised %r" % (op, k, n, s, exc)))
         if out == "error":
             stats["failed-calls"] = stats.get("failed-calls", 0) + 1
-            changed = [f for f in ("uname", "usym", "pname", "psym") if before[f] != after[f]]
+            changed = [f for f in ("uname", "usym", "pname", "psym", "dname") if before[f] != after[f]]
+            if before["dobjs"] != {i: v for i, v in after["dobjs"].items() if i in before["dobjs"]}:
+                changed.append("dimension.name/symbol")
             if before["objs"] != {i: v for i, v in after["objs"].items() if i in before["objs"]}:
                 changed.append("unit.names/symbols")
             if changed:
                 mm.append(self._mm("%s:failed-call-changed:%s:%s" % (tag, "+".join(changed), argshape),
                                    "%s(%s, name=%r, symbol=%r) raised %s but changed %s" % (op, k, n, s, type(exc).__name__, changed)))
-            if after["nknown"] != before["nknown"] or after["npref"] != before["npref"]:
+            if after["nknown"] != before["nknown"] or after["npref"] != before["npref"] or after["ndim"] != before["ndim"] or after["nfund"] != before["nfund"]:
                 mm.append(self._mm("%s:failed-call-left-orphan-intern-entry:%s" % (tag, argshape),
                                    "%s(%s, name=%r, symbol=%r) raised but the intern table grew" % (op, k, n, s)))
         elif out == "ok" and ev["out"] == "ok" and op != "anon":
             stats["declared"] = stats.get("declared", 0) + 1
             obj = ctx["obj"].get(k)
-            tabn = m.Unit._by_name if c == "unit" else m.Prefix._by_name
-            tabs = m.Unit._by_symbol if c == "unit" else m.Prefix._by_symbol
+            tabn = m.Unit._by_name if c == "unit" else m.Dimension._by_name if c == "dimension" else m.Prefix._by_name
+            tabs = m.Unit._by_symbol if c == "unit" else {} if c == "dimension" else m.Prefix._by_symbol
             earlier = "object-existed-anonymously" if self._was_anon(ev, before, obj) else "object-new-or-named"
             if n is not None:
                 if tabn.get(n) is not obj:
@@ -112,7 +122,7 @@ class NamesDriver:
                 if s not in rep:
                     mm.append(self._mm("%s:symbol-not-reported:%s" % (tag, earlier), "after %s(%s, symbol=%r) the object reports symbols %r" % (op, k, s, rep)))
         # uniqueness: no key of a lookup table ever changes its value
-        for f in ("uname", "usym", "pname", "psym"):
+        for f in ("uname", "usym", "pname", "psym", "dname"):
             for key, val in before[f].items():
                 if key in after[f] and after[f][key] is not val:
                     mm.append(self._mm("%s:rebound:%s" % (tag, f), "%r was bound to %r and is now bound to %r" % (key, val, after[f][key])))
@@ -122,12 +132,15 @@ class NamesDriver:
 
     def _lookup(self, ev, ctx, stats):
         m = self.m
-        sym = SYM[ev["s"]]
+        sym = SYM[ev["s"]] if ev["c"] != "dimension" else NAME[ev["s"]]
         stats["lookups"] = stats.get("lookups", 0) + 1
         res = []
         for _ in range(2):
             try:
-                r = (m.Unit if ev["c"] == "unit" else m.Prefix).resolve_symbol(sym)
+                if ev["c"] == "dimension":
+                    r = m.Dimension.named(sym)
+                else:
+                    r = (m.Unit if ev["c"] == "unit" else m.Prefix).resolve_symbol(sym)
             except KeyError:
                 r = None
             except Exception as ex:
@@ -149,7 +162,7 @@ class NamesDriver:
         obj = ctx["obj"].get(ev["k"])
         n = NAME.get(ev["n"]) if ev["n"] else None
         s = SYM.get(ev["s"]) if ev["s"] else None
-        tn, ts = ("uname", "usym") if ev["c"] == "unit" else ("pname", "psym")
+        tn, ts = ("uname", "usym") if ev["c"] == "unit" else ("dname", "usym") if ev["c"] == "dimension" else ("pname", "psym")
         return (n is not None and n in before[tn] and before[tn][n] is not obj) or (isinstance(s, str) and s in before[ts] and before[ts][s] is not obj)
 
     def _was_anon(self, ev, before, obj):
@@ -157,6 +170,8 @@ class NamesDriver:
             return False
         if ev["c"] == "unit":
             return id(obj) in before["objs"] and not before["objs"][id(obj)][0] and not before["objs"][id(obj)][1]
+        if ev["c"] == "dimension":
+            return id(obj) in before["dobjs"] and before["dobjs"][id(obj)][0] is None
         return id(obj) in before["pobjs"] and before["pobjs"][id(obj)] == (None, None)
 
     def _why(self, ev):
@@ -186,6 +201,18 @@ def run_c19(tier, seed):
     v.add_violations(rep["mm"])
     v.exhaustive = True
     v.extra["replay"] = {"transitions": len(trans), "spec_states": nstates, "executed": rep["n"], "stats": rep["stats"]}
+    # the dimension registry on its own: define / derive / named in every order
+    dres = run_tlc("MC_Names", wd=workdir("tlc_names_dims"), env={"VERIF_DEPTH": 3 if tier == "quick" else 4, "VERIF_DIMS": 1}, workers=4, timeout=3000)
+    require_ok(dres, "MC_Names[dimensions]")
+    v.add_tlc(dres, "MC_Names[dimensions]")
+    dtrans = dres.exports.get("T", [])
+    dh, dstates = graph_histories(dtrans, dres.exports.get("I", []))
+    drep = replay_histories(dh, NamesDriver(), split_depth=2, label="names_dims")
+    v.impl += drep["n"]
+    v.evaluations += drep["n"]
+    v.nontrivial += drep["stats"].get("declared", 0) + drep["stats"].get("failed-calls", 0)
+    v.add_violations(drep["mm"])
+    v.extra["replay_dimensions"] = {"transitions": len(dtrans), "spec_states": dstates, "executed": drep["n"], "stats": drep["stats"]}
     import_traces(v, tier, seed)
     v.rule = ("cases = transitions of the TLC state graph of MC_Names (declaring and anonymous calls in every order, valid and invalid), one "
               "real execution each; plus declaration traces of the shipped modules under several import orders validated by TLC; "
